@@ -132,7 +132,7 @@ class Fold:
             r = {'fceil': math.ceil, 'ffloor': math.floor, 'ftrunc': math.trunc, 'fabs': abs,
                  'fround': lambda v: math.floor(abs(v) + 0.5) * (1 if v >= 0 else -1)}[m](a)
             return C(float(r), 'f32')
-        if m in ('has_char', 'char_at', 'has_token', 'token', 'has_ascii_token', 'ascii_token', 'str_len', 'str_slice', 'is_char_boundary_range'):
+        if m in ('has_char', 'char_at', 'has_token', 'token', 'has_ascii_token', 'ascii_token', 'str_len', 'str_slice', 'is_char_boundary_range', 'has_byte', 'byte_at'):
             h = self.env.get('$str')
             if h is None:
                 raise Uncertified("string model unbound in fold")
